@@ -68,7 +68,12 @@ static int which_region(const void *p, uint64_t *off)
     return -1;
 }
 
-/* ---- recording sink -------------------------------------------------- */
+/* ---- comparing sink ---------------------------------------------------
+ * The expected stream is  exp_lit[0..exp_nlit)  (octets that live outside the
+ * payload objects: the prefix) followed by exp_seg[0..exp_nseg) (ranges of the
+ * payload objects). Every put must continue the expected stream exactly where
+ * the previous one stopped; how the framer splits the stream into puts is
+ * irrelevant. */
 #define MAXSEG 4
 struct seg {
     int reg;
@@ -76,11 +81,12 @@ struct seg {
 };
 static struct {
     unsigned calls;
-    uint8_t lit[C13_PREFIX_MAX];
-    unsigned nlit;
-    bool lit_after_payload, overflow;
-    struct seg seg[MAXSEG];
-    unsigned nseg;
+    bool bad;
+    uint8_t exp_lit[C13_PREFIX_MAX];
+    unsigned exp_nlit, litpos;
+    struct seg exp_seg[MAXSEG];
+    unsigned exp_nseg, cur;
+    uint64_t pos;
 } rec;
 
 static ssize_t rec_sink(void *drv, const void *p, size_t n)
@@ -88,30 +94,32 @@ static ssize_t rec_sink(void *drv, const void *p, size_t n)
     (void)drv;
     rec.calls++;
     uint64_t off = 0;
-    int r = which_region(p, &off);
-    if (r >= 0) {
-        if (rec.nseg > 0 && rec.seg[rec.nseg - 1].reg == r &&
-            rec.seg[rec.nseg - 1].start + rec.seg[rec.nseg - 1].len == off) {
-            rec.seg[rec.nseg - 1].len += n;
-        } else if (rec.nseg < MAXSEG) {
-            rec.seg[rec.nseg].reg = r;
-            rec.seg[rec.nseg].start = off;
-            rec.seg[rec.nseg].len = n;
-            rec.nseg++;
-        } else {
-            rec.overflow = true;
-        }
-    } else {
-        if (rec.nseg > 0)
-            rec.lit_after_payload = true;
-        if (n > C13_PREFIX_MAX - rec.nlit) {
-            rec.overflow = true;
+    const int r = which_region(p, &off);
+    if (n == 0) {
+        rec.bad = true;
+    } else if (rec.litpos < rec.exp_nlit) {
+        if (r >= 0 || n > rec.exp_nlit - rec.litpos) {
+            rec.bad = true;
         } else {
             const uint8_t *s = p;
             for (size_t i = 0; i < n; ++i)
-                rec.lit[rec.nlit + i] = s[i];
-            rec.nlit += (unsigned)n;
+                if (s[i] != rec.exp_lit[rec.litpos + i])
+                    rec.bad = true;
+            rec.litpos += (unsigned)n;
         }
+    } else if (rec.cur < rec.exp_nseg) {
+        const struct seg e = rec.exp_seg[rec.cur];
+        if (r != e.reg || off != e.start + rec.pos || n > e.len - rec.pos) {
+            rec.bad = true;
+        } else {
+            rec.pos += n;
+            if (rec.pos == e.len) {
+                rec.cur++;
+                rec.pos = 0;
+            }
+        }
+    } else {
+        rec.bad = true;
     }
     return (ssize_t)n;
 }
@@ -193,12 +201,20 @@ static void check_prefix_buffer(const ByteBuffer *pb, uint64_t total)
     }
 }
 
-/* the sink must have received encoding(total) followed by the expected
- * payload segments, and rc must be the total */
-static void check_sink(ssize_t rc, uint64_t total, unsigned nexp, const struct seg *exp)
+/* before the call: tell the sink what the property says must arrive */
+static void expect_sink(uint64_t total, unsigned nexp, const struct seg *exp)
 {
-    uint8_t ref[C13_PREFIX_MAX];
-    const unsigned plen = c13_ref_prefix(kindv, total, ref);
+    rec.exp_nlit = c13_ref_prefix(kindv, total, rec.exp_lit);
+    rec.exp_nseg = nexp;
+    for (unsigned i = 0; i < MAXSEG; ++i)
+        if (i < nexp)
+            rec.exp_seg[i] = exp[i];
+}
+
+/* after the call */
+static void check_sink(ssize_t rc, uint64_t total)
+{
+    const unsigned plen = rec.exp_nlit;
     if (total == 0)
         return; /* the property starts at length 1 */
     if (total > kmax) {
@@ -214,16 +230,8 @@ static void check_sink(ssize_t rc, uint64_t total, unsigned nexp, const struct s
         return;
     }
     VP_ASSERT(rc == (ssize_t)(plen + total), "C13.sink.reports-total");
-    VP_ASSERT(!rec.overflow && !rec.lit_after_payload && rec.nlit == plen,
-              "C13.sink.prefix-first-and-once");
-    for (unsigned i = 0; i < C13_PREFIX_MAX; ++i)
-        if (i < plen)
-            VP_ASSERT(rec.lit[i] == ref[i], "C13.sink.prefix-encoding");
-    VP_ASSERT(rec.nseg == nexp, "C13.sink.payload-segments");
-    for (unsigned i = 0; i < MAXSEG; ++i)
-        if (i < nexp && i < rec.nseg)
-            VP_ASSERT(rec.seg[i].reg == exp[i].reg && rec.seg[i].start == exp[i].start &&
-                      rec.seg[i].len == exp[i].len, "C13.sink.exactly-the-designated-octets");
+    VP_ASSERT(!rec.bad, "C13.sink.emits-prefix-then-exactly-the-designated-octets");
+    VP_ASSERT(rec.litpos == plen && rec.cur == rec.exp_nseg, "C13.sink.emits-everything");
 }
 
 void harness(void)
@@ -262,6 +270,9 @@ void harness(void)
     for (unsigned i = 0; i < NCH; ++i) {
         VP_ASSUME(in.coff[i] <= in.cused[i] && in.cused[i] <= in.csize[i] && in.coff[i] <= VOFF);
         VP_ASSUME(in.cused[i] - in.coff[i] <= ((uint64_t)1 << 62)); /* the sum cannot wrap */
+#ifdef SMALLX
+        VP_ASSUME(in.csize[i] <= 4096);
+#endif
         if (i < in.active)
             VP_ASSUME(in.cused[i] == in.coff[i]); /* chunks before `active` are consumed */
         ch[i].data = REG_BASE(REG_C0 + i);
@@ -359,9 +370,10 @@ void harness(void)
         break;
     }
     case EP_MEMORY_TO_SINK: {
-        const ssize_t rc = flenp_memory_to_sink(k, &sink, REG_BASE(REG_MEM), in.n);
         const struct seg e = { REG_MEM, 0, in.n };
-        check_sink(rc, in.n, 1, &e);
+        expect_sink(in.n, 1, &e);
+        const ssize_t rc = flenp_memory_to_sink(k, &sink, REG_BASE(REG_MEM), in.n);
+        check_sink(rc, in.n);
         VP_WITNESS(rc > 0 && in.n == kmax && kindv == LENP_OCTET, "C13.memory-to-sink.octet-max.reach");
         VP_WITNESS(rc > 0 && in.n == 1100 && kindv == LENP_VARIABLE, "C13.memory-to-sink.varint-1100.reach");
         VP_WITNESS(rc > 0 && kindv == LENP_VARIABLE && in.n == kmax - 10, "C13.memory-to-sink.varint-largest.reach");
@@ -374,12 +386,13 @@ void harness(void)
         if (isn)
             VP_ASSUME(in.n <= brest);
         const uint64_t total = isn ? in.n : brest;
+        const struct seg e = { REG_BUF, in.boff, total };
+        expect_sink(total, 1, &e);
         const ssize_t rc = isn ? flenp_buffer_to_sink_n(k, &sink, &b, in.n)
                                : flenp_buffer_to_sink(k, &sink, &b);
-        const struct seg e = { REG_BUF, in.boff, total };
         VP_ASSERT(b.data == REG_BASE(REG_BUF) && b.size == in.bsize && b.used == in.bused,
                   "C13.buffer-to-sink.source-buffer-frame");
-        check_sink(rc, total, 1, &e);
+        check_sink(rc, total);
         if (isn && total >= 1 && total <= kmax && total <= (uint64_t)SSIZE_MAX - C13_PREFIX_MAX)
             VP_ASSERT(b.offset == in.boff + in.n, "C13.buffer-to-sink-n.advances-by-n");
         VP_WITNESS(isn && rc > 0 && total == kmax && brest > in.n && in.boff > 0 &&
@@ -391,13 +404,14 @@ void harness(void)
     }
     case EP_CHUNKS_TO_SINK: {
         ByteChunks oc = { .chunks = in.nchunks, .active = in.active, .chunk = ch };
+        expect_sink(ctotal, ncexp, cexp);
         const ssize_t rc = flenp_chunks_to_sink(k, &sink, &oc);
         bool same = true;
         for (unsigned i = 0; i < NCH; ++i)
             same = same && ch[i].data == REG_BASE(REG_C0 + i) && ch[i].size == in.csize[i] &&
                    ch[i].used == in.cused[i];
         VP_ASSERT(same, "C13.chunks-to-sink.chunk-buffers-frame");
-        check_sink(rc, ctotal, ncexp, cexp);
+        check_sink(rc, ctotal);
         VP_WITNESS(rc > 0 && ctotal == kmax && ncexp == 3, "C13.chunks-to-sink.max-three-chunks.reach");
         VP_WITNESS(rc > 0 && ctotal >= 1 && ncexp == 2 && in.nchunks == 3 && in.active == 0 &&
                    in.cused[1] == in.coff[1], "C13.chunks-to-sink.empty-middle-chunk.reach");
